@@ -221,6 +221,54 @@ def witness_consistency(case, shadow):
     return out
 
 
+_SWAP = {"-a": "-A", "-g": "-G", "-b": "-B", "-A": "-a", "-G": "-g", "-B": "-b"}
+_SEARCH = {"-e", "-O", "--no-indels", "--match-read-wildcards", "-N", "--action", "--pair-adapters", "--no-index"}
+
+
+def pair_adapter_symmetry(case, ctx):
+    """
+    --pair-adapters treats the two reads alike: with the files and the -a/-A lists exchanged, R1 must come out
+    as R2 did and R2 as R1 did (every action, incl. retain and mask, applied to each mate at its own match).
+    Both runs use only the adapter and search options, on plain two-file input.
+    """
+    import copy
+
+    ext = ".fastq" if case["fmt"] == "fastq" else ".fasta"
+    a = copy.deepcopy(case)
+    a["opts"] = [g for g in case["opts"] if g[0] in _SWAP or g[0] in _SEARCH]
+    a["outs"] = [["-o", "/simfs/sym1" + ext], ["-p", "/simfs/sym2" + ext]]
+    a["input"] = {"layout": "two", "ext": ext, "containers": ["", ""], "members": [1, 1], "comments": 0}
+    a["aux_files"] = {}
+    if any(g[1].startswith("file:") for g in a["opts"] if g[0] in _SWAP):
+        return []
+    b = copy.deepcopy(a)
+    for r in b["records"]:
+        r[1], r[2] = r[2], r[1]
+        r[3], r[5] = r[5], r[3]
+        r[4], r[6] = r[6], r[4]
+    b["opts"] = [[_SWAP.get(g[0], g[0])] + g[1:] for g in a["opts"]]
+    # the adapters of one rank must stay paired: -a list <-> -A list keeps the order within each list
+    res = []
+    for name, c in (("sym-a", a), ("sym-b", b)):
+        r = ctx.run(name, gen.build_argv(c, cores=1), gen.materialize(c), parallel=False)
+        if r.exit != 0:
+            return []
+        try:
+            res.append(C.read_dest(r, {"paths": ["/simfs/sym1" + ext, "/simfs/sym2" + ext], "interleaved": False}))
+        except (KeyError, fmt.FormatError):
+            return []
+    (_, a1, a2), (_, b1, b2) = res
+    out = []
+    for k, (x1, x2, y1, y2) in enumerate(zip(a1, a2, b1, b2)):
+        if (x1[1], x1[2]) != (y2[1], y2[2]) or (x2[1], x2[2]) != (y1[1], y1[2]):
+            out.append(C.V("pair-adapters", f"pair {C.rid(x1[0])}: with the reads and the -a/-A lists exchanged the mates come out differently: "
+                                              f"R1 {x1[1]!r} / R2 {x2[1]!r} versus R2' {y2[1]!r} / R1' {y1[1]!r}"))
+            break
+    ctx.results.pop("sym-a", None)
+    ctx.results.pop("sym-b", None)
+    return out
+
+
 def evaluate(case, ctx):
     files = engine.gen_files(case)
     case["meta"]["fates"] = []
@@ -243,6 +291,10 @@ def evaluate(case, ctx):
     v1 = witness_consistency(case, shadow)
     if v1:
         return v1
+    if case["meta"].get("pair_adapters"):
+        v2 = pair_adapter_symmetry(case, ctx)
+        if v2:
+            return v2
     mdl = M.Model(case)
     ref = C.run_serial(case, ctx, files)
     if ref.exit == 2:
